@@ -4,6 +4,7 @@ i.e. inside a statement after earlier sub-expressions were already evaluated
 ("call" mode), from the outside, through PEP 669 ``sys.monitoring`` events
 restricted to files under the formulae package.  No change to /repo.
 """
+import dis
 import sys
 
 mon = sys.monitoring
@@ -28,6 +29,7 @@ class Injector:
         self.fired = None
         self.active = False
         self.installed = False
+        self._plain_calls = {}  # code object -> offsets of plain CALL instructions
 
     @property
     def count(self):
@@ -58,7 +60,15 @@ class Injector:
         if not code.co_filename.startswith(self.root):
             return mon.DISABLE
         if self.active:
-            self._hit("call", code, f"call@{offset}")
+            # Only plain CALL instructions are crash points.  CPython 3.12.1 mishandles an exception raised
+            # by a CALL callback at CALL_FUNCTION_EX (`f(*args, **kw)` with a non-function callee): the
+            # argument list is released twice, which corrupts the heap of the *harness* process.
+            ok = self._plain_calls.get(code)
+            if ok is None:
+                ok = frozenset(i.offset for i in dis.get_instructions(code) if i.opname == "CALL")
+                self._plain_calls[code] = ok
+            if offset in ok:
+                self._hit("call", code, f"call@{offset}")
         return None
 
     def run(self, fn, at=None, flavour="base", mode="line", count_both=False):
